@@ -3,7 +3,7 @@ driver, outputs diffed line by line (bit-exact; no tolerance)."""
 import multiprocessing as mp
 import os
 
-from . import gen, wire
+from . import gen, specs, wire
 
 VIEWS = {}
 
@@ -159,6 +159,61 @@ def gen_mgr_malformed(rng, size):
 
 
 # --------------------------------------------------------------------------------------
+# indicators
+
+
+def _ind_case(rng, size, spec, programs=False, mgr=True):
+    n = rng.randint(0, size)
+    tf = None
+    if mgr and rng.random() < 0.3:
+        tf = gen.gen_timeframe(rng)
+        spec = dict(spec, tf=tf, fill=rng.random() < 0.4)
+    if mgr and rng.random() < 0.15:
+        spec = dict(spec, ha=True)
+    step = None
+    if tf is not None:
+        step = max(1, gen.tf_seconds(tf) // rng.choice([1, 2, 3, 5]))
+    stream, meta = gen.gen_stream(rng, n, step=step)
+    if mgr and rng.random() < 0.1 and n:
+        span = (step or 60) * rng.randint(3, 40)
+        spec = dict(spec, life=span)
+    sched, shape = gen.gen_schedule(rng, n)
+    parts = gen.split_by(stream, sched)
+    lines = [f"ind {specs.spec_params(spec)} " + wire.enc_candles(parts[0]), "icalc", "isnap"]
+    for p in parts[1:]:
+        lines.append("iapp " + wire.enc_candles(p))
+        lines.append("isnap")
+        if programs and rng.random() < 0.3:
+            k = rng.random()
+            if k < 0.25:
+                lines.append("ipurge")
+            elif k < 0.5:
+                lines.append("irecalc")
+            elif k < 0.75:
+                lines.append(f"icidx s={rng.randint(-3, 6)} e=-")
+            else:
+                lines.append("icalc")
+            lines.append("isnap")
+    if rng.random() < 0.5:
+        for what in ("has_reading", "active", "reading_count", "reading", "prev_reading"):
+            lines.append(f"iacc {what}")
+    meta.update({"kind": spec["kind"] + (":" + spec["fn"] if spec["kind"] == "AMORPH" else ""), "schedule": shape,
+                 "tf": bool(tf), "ha": bool(spec.get("ha")), "n": n, "appends": len(parts) - 1})
+    return lines, meta
+
+
+def _mk_ind_component(kind):
+    def genf(rng, size):
+        return _ind_case(rng, size, specs.gen_spec(rng, [kind]), programs=rng.random() < 0.3)
+
+    return genf
+
+
+for _k in specs.ALL_KINDS:
+    COMPONENTS[f"ind.{_k}"] = (_mk_ind_component(_k), "full")
+
+
+# --------------------------------------------------------------------------------------
 # running
 
 
@@ -172,6 +227,14 @@ def split_on_reset(lines):
             cur.append(l)
     out.append(cur)
     return out
+
+
+def _cut(lines):
+    """a scenario ends at its first error: keep everything up to and including it"""
+    for j, l in enumerate(lines):
+        if l.startswith("err "):
+            return lines[: j + 1]
+    return lines
 
 
 def _worker(args):
@@ -199,8 +262,8 @@ def _worker(args):
     for (i, lines, meta), mo in zip(cases, model_out):
         runner.reset()
         io = runner.run(lines)
-        a = [vf(x) for x in io]
-        b = [vf(x) for x in mo]
+        a = _cut([vf(x) for x in io])
+        b = _cut([vf(x) for x in mo])
         diff = None
         if a != b:
             for j, (x, y) in enumerate(zip(a, b)):
